@@ -95,7 +95,10 @@ func runC12(c *Ctx) {
 
 	// ---- raiser: raising the wager to match makes the payer the current raiser
 	{
-		s := newSumm(p, 0)
+		s := newSumm(p, 2)
+		s.InlineFilter = func(f *ssa.Function) bool {
+			return f.Name() != "BecomeRaiser" && f.Name() != "ResetActedPlayers" && f.Pkg != nil && shortPkg(f.Pkg.Pkg.Path()) == "pokerface" && f.Signature.Recv() != nil && strings.HasSuffix(recvName(f.Signature.Recv().Type()), ea.playerImpl)
+		}
 		paths, _ := s.Function(mover)
 		var bad []string
 		n := 0
